@@ -61,6 +61,18 @@ def run(ctx: Ctx):
               ' outcome dropped, so the producer entry itself records every failure of'
               ' the generator object, including a failing __iter__ (R-C05-10)',
               c05.r10, qmodel(ctx), min_instances=2)
+  ctx.include('R-C15-11', '"initialising a new generator or shutting down stops the previous'
+              ' one ... never leaves a request blocked": the stop of the prefetch queue'
+              ' is RECORDED before the blocked prefetch thread is woken, and wakes all'
+              ' waiters on both conditions (R-C05-1 store-then-notify_all, R-C05-5) — a'
+              ' producer woken first re-checks a flag that is not set yet, waits again and'
+              ' _stop_prefetch joins it for ever', _c05_stop_shared, qmodel(ctx), min_instances=10)
+
+
+def _c05_stop_shared(sub, m):
+  from mlmverif.props import c05
+  sub.guard(c05.r1, m)
+  sub.guard(c05.r5, m)
 
 
 def _c04_shared(sub, m):
